@@ -232,15 +232,33 @@ func checkC19(r *core.Run) {
 			policyConsts = append(policyConsts, c)
 		}
 	}
-	tab, def := caseTable(sel, func(e ast.Expr) string {
+	tab, def := dispatchTable(w, sel, func(e ast.Expr) string {
 		if c := core.ConstObj(info, e); c != nil {
 			return c.Name()
 		}
 		return ""
 	})
 	var policies []*core.FuncInfo
-	calledIn := func(cc *ast.CaseClause) *core.FuncInfo {
+	calledIn := func(cc ast.Node) *core.FuncInfo {
 		var out *core.FuncInfo
+		if cc == nil {
+			return nil
+		}
+		// a table entry names the policy function itself
+		switch x := cc.(type) {
+		case *ast.Ident:
+			if fn, ok := info.Uses[x].(*types.Func); ok {
+				if g := w.Info(fn); g != nil && g.Pkg.PkgPath == pLB {
+					return g
+				}
+			}
+		case *ast.SelectorExpr:
+			if fn, ok := info.Uses[x.Sel].(*types.Func); ok {
+				if g := w.Info(fn); g != nil && g.Pkg.PkgPath == pLB {
+					return g
+				}
+			}
+		}
 		ast.Inspect(cc, func(n ast.Node) bool {
 			if c, ok := n.(*ast.CallExpr); ok {
 				if g := w.Info(core.Callee(info, c)); g != nil && g.Pkg.PkgPath == pLB {
